@@ -144,6 +144,25 @@ Example ignored_body_errors_still_reported :
   /\ bytes_eqb (s_got (wr_sink r)) (s_got (wr_sink r0)) = true.
 Proof. vm_compute. repeat split. Qed.
 
+(* `return nil` on a failed WriteString inside writeLine is covered as well (the caller
+   continues and meets the sticky error) ... *)
+Definition with_wl_line (h : handler) : wpolicy :=
+  mkpol h Propagate Propagate 94 Propagate Propagate Propagate Propagate Propagate Propagate Propagate.
+Example writeline_return_nil_still_reported :
+  policy_ok (with_wl_line ReturnNil) = true /\
+  let r := writer_run (with_wl_line ReturnNil) lf recs41 (Some (mkfault 4000 Hard false)) in
+  wr_write r = Some EInj /\ wr_flush r = Some EInj.
+Proof. vm_compute. repeat split. Qed.
+
+(* ... but not where Write or the batch loops look at writeLine's result: 60 records, the
+   mid-stream flush after record 43 fails, Write returns nil with nothing delivered *)
+Definition recs60 : list (rtag * bytes) :=
+  (THdr, line 49) :: map (fun _ => (TBody, line 54)) (seq 0 58) ++ [(TCtl, line 57)].
+Lemma body_return_nil_refuted :
+  let r := writer_run (with_body ReturnNil) lf recs60 (Some (mkfault 100 Hard false)) in
+  wr_write r = None /\ blen (s_got (wr_sink r)) = 100 /\ policy_ok (with_body ReturnNil) = false.
+Proof. vm_compute. repeat split. Qed.
+
 (* reader: without the scanner.Err() check a failure after the preview is swallowed *)
 Definition text2000 : bytes := repeat 49 2000.
 Lemma dropped_scanner_err_refuted :
